@@ -46,6 +46,9 @@ enum Ev {
     GuardOn,
 }
 
+/// scripted start states that were not reached; a machinery error unless a violation explains it
+static START_MISSED: std::sync::atomic::AtomicU64 = std::sync::atomic::AtomicU64::new(0);
+
 #[derive(Clone, Debug, Default, PartialEq)]
 struct LinkMon {
     latched: bool,
@@ -55,6 +58,9 @@ struct LinkMon {
     pulls: u64,
     /// a reset / guard-off happened since the last select (edges are then exempt)
     exempt: bool,
+    /// the monitor's own record of the last delivery proof (0 = none since the link was last reset): an earned
+    /// SRTLA ACK or a completed keepalive round trip sets it, a reset clears it
+    proof: u64,
 }
 
 #[derive(Clone)]
@@ -224,16 +230,21 @@ impl Model for M {
         let mut s = self.init0();
         if i == 1 {
             let find = |ev: Ev| self.events.iter().position(|e| *e == ev).unwrap();
-            self.step(w, &mut s, find(Ev::Load(0))).expect("script");
-            self.step(w, &mut s, find(Ev::ProofAck(0))).expect("script");
-            self.step(w, &mut s, find(Ev::Load(0))).expect("script");
-            for _ in 0..6 {
-                self.step(w, &mut s, find(Ev::Sel(4000))).expect("script");
+            let mut script = vec![Ev::Load(0), Ev::ProofAck(0), Ev::Load(0)];
+            script.extend([Ev::Sel(4000); 6]);
+            for ev in script {
                 if s.links[0].stall_latched() {
                     break;
                 }
+                if let Err(f) = self.step(w, &mut s, find(ev)) {
+                    engine::prefix_fail(f);
+                    break;
+                }
             }
-            assert!(s.links[0].stall_latched(), "scripted history did not latch link 0");
+            if !s.links[0].stall_latched() {
+                // not a verdict by itself: the histories go on from the state the script did reach
+                START_MISSED.fetch_add(1, std::sync::atomic::Ordering::Relaxed);
+            }
         }
         s
     }
@@ -275,8 +286,9 @@ impl Model for M {
                     let p = c.verif_private();
                     let latched = c.stall_latched();
                     let pulled = p.silence_pulled;
-                    let (inflight, proof, heard, connected, win, pwin) = pre[l];
+                    let (inflight, _stamp, heard, connected, win, pwin) = pre[l];
                     let m = s.mon[l].clone();
+                    let proof = m.proof;
                     let now = s.now;
                     let guard = s.guard;
                     let ctx = |what: &str| {
@@ -417,6 +429,7 @@ impl Model for M {
                 if s.links[l].last_ack_or_rtt_sample_ms != s.now {
                     return Err(Fail::new("earned-ack-did-not-stamp-proof", format!("link {l}: earned SRTLA ACK left the proof stamp at {}", s.links[l].last_ack_or_rtt_sample_ms)));
                 }
+                s.mon[l].proof = s.now;
             }
             Ev::KaSend(l) => {
                 s.now += 1;
@@ -430,7 +443,12 @@ impl Model for M {
                 set_now(s.now);
                 let mut p = vec![0x90u8, 0x00];
                 p.extend_from_slice(&(s.now - rtt).to_be_bytes());
+                let probing = s.links[l].rtt.waiting_for_keepalive_response;
                 inject(w, s, l, &p);
+                // a completed round trip (a probe was outstanding) is delivery proof
+                if probing {
+                    s.mon[l].proof = s.now;
+                }
             }
             Ev::Hear(l) => {
                 s.now += 1;
@@ -447,7 +465,8 @@ impl Model for M {
                 s.links[l].clear_pre_registration_state(s.now);
                 s.links[l].connected = true;
                 s.links[l].last_received = Some(s.now);
-                // the reset itself clears latch and pull (the counters survive)
+                // the reset itself clears latch and pull (the counters survive); a reset link has no delivery proof
+                s.mon[l].proof = 0;
                 s.mon[l].exempt = true;
                 s.mon[l].run_start = None;
                 s.mon[l].latched = false;
@@ -592,7 +611,10 @@ pub fn run(tier: Tier) -> Report {
     }
     rep.set("edges_observed", edges);
     rep.set("settings", json!(settings(tier).iter().map(|s| format!("{s:?}")).collect::<Vec<_>>()));
-    rep.set("oracle", json!("temporal monitor on every select, with its own run-start and its own window clamp(4 x floor(srtt), 1000, ceiling) (ceiling if no RTT; a ceiling below the floor wins): latch rising edge => backlog >= threshold or held by the silence pull, proof exists, proof age >= window; never latched without proof; latch falling edge (no reset / guard-off since the previous select) => proof fresh at every select since the monitor's run-start and run >= 2 x window; silence-pull falling edge => heard within the pull window or disconnected; stall_gate_events / silence_pulls move by exactly one per rising edge; gated => latched or pulled; guard off => everything clear"));
+    if START_MISSED.load(std::sync::atomic::Ordering::Relaxed) != 0 {
+        rep.machinery_errors.push("the scripted latched start state was not reached: the histories from it were explored from whatever state the script did reach".into());
+    }
+    rep.set("oracle", json!("temporal monitor on every select, with its own run-start and its own window clamp(4 x floor(srtt), 1000, ceiling) (ceiling if no RTT; a ceiling below the floor wins): latch rising edge => backlog >= threshold or held by the silence pull, proof exists (the monitor's own record: set by an earned SRTLA ACK and by a completed keepalive round trip, cleared by a link reset), proof age >= window; never latched without proof; latch falling edge (no reset / guard-off since the previous select) => proof fresh at every select since the monitor's run-start and run >= 2 x window; silence-pull falling edge => heard within the pull window or disconnected; stall_gate_events / silence_pulls move by exactly one per rising edge; gated => latched or pulled; guard off => everything clear"));
     rep.assume("thresholds, ceiling and RTT baseline are fixed per trace; keepalive echoes measure exactly the baseline RTT so the smoothed RTT stays constant");
     rep.assume("proof / hear / drain / REG_ERR events are datagrams pushed through the real shell function handle_uplink_packet; scheduling decisions are direct calls of select_connection_idx (handle_srt_packet's other effects are C01/C04's subject)");
     rep
